@@ -30,7 +30,7 @@ Print Assumptions C08_factor_code_writer_encoding.
         typedn n we w a -> (n <= f)%nat ->
         rdec f we re ropts0 w (Some r) (wire a ++ x) = lift x (resolve we re w r a)
 
-    Proved ( _partial ): for schemas without by-name references and annotations ([inline]) under the computable
+    Proved ( _partial ): for schemas without by-name references, annotations only as dict-form primitives ([inline]), under the computable
     side condition [agree we re w r], which follows the specification's own traversal (the reader branch [spec_idx]
     picks, the pairs that [smatch]) and asks at the pairs reached only for: the reader schema is not the empty union
     (the code takes `[]` for "no reader schema"), a reader enum default is not the empty string (`if default:`), the
@@ -40,8 +40,10 @@ Print Assumptions C08_factor_code_writer_encoding.
     `len(readers_field_dict) > len(record)` guard (guard_always); they are no longer side conditions.
     The full statement was FALSE of the code before the repairs fa4e4ec, 7315827, 0f60141, 7fea917, ea123da:
     see C08_old_code_refuted_* below.
-    MISSING for full strength: schemas with by-name references / recursive types and dict-form primitives
-    (annotations) - for those C08_factor_code (all inputs) and the correspondence check stand. *)
+    Schemas with by-name references (recursive types included) are covered by C08_factor_zone_refs_partial below,
+    with the same conditions followed through the named-type tables to the depth of the value.
+    MISSING for full strength: logicalType annotations on non-primitive types, nested unions, reader options
+    (return_record_name ...) - for those C08_factor_code (all inputs) and the correspondence check stand. *)
 Theorem C08_factor_zone_partial : forall n we w a, typedn n we w a ->
   forall re r f x, (n <= f)%nat -> inline w = true -> inline r = true -> agree we re w r = true ->
   rdec f we re ropts0 w (Some r) (wire a ++ x)%list = lift x (resolve we re w r a).
@@ -76,6 +78,40 @@ Print Assumptions C08_branch_choice_is_spec.
 Theorem C08_record_guard_consistent : forall rfs wfs, guard_ok rfs wfs = true.
 Proof. exact guard_always. Qed.
 Print Assumptions C08_record_guard_consistent.
+
+(** ... with by-name references: [scoped] = every reference resolves to a named type of its table ([env_scoped]: so do
+    the references inside the tables), annotations only as dict-form primitives, unions not nested; [agreen k] = the
+    conditions of [agree], followed through the tables down to depth k (the height of the value bounds what is visited) *)
+Theorem C08_factor_zone_refs_partial : forall n we w a, typedn n we w a ->
+  forall re r k f x, (n <= k)%nat -> (n <= f)%nat ->
+  env_scoped we = true -> env_scoped re = true -> scoped we w = true -> scoped re r = true ->
+  agreen k we re w r = true ->
+  rdec f we re ropts0 w (Some r) (wire a ++ x)%list = lift x (resolve we re w r a).
+Proof. exact rdec_resolve_zoneS. Qed.
+Print Assumptions C08_factor_zone_refs_partial.
+
+Theorem C08_rval_is_resolve_refs_partial : forall n we w a, typedn n we w a -> forall re r k f, (n <= k)%nat -> (n <= f)%nat ->
+  env_scoped we = true -> env_scoped re = true -> scoped we w = true -> scoped re r = true ->
+  agreen k we re w r = true ->
+  rval f we re ropts0 w (Some r) a = resolve we re w r a.
+Proof. exact rval_resolveS. Qed.
+Print Assumptions C08_rval_is_resolve_refs_partial.
+
+(** the code's verdict and its choice of a reader-union branch are the specification's, references included *)
+Theorem C08_match_is_spec_refs : forall we re w r, env_scoped we = true -> env_scoped re = true ->
+  scoped we w = true -> scoped re r = true -> is_union (deref1 we w) = false -> is_union (deref1 re r) = false ->
+  match_top we re w r = if smatch we re true w r then ROk r else RErrResolution.
+Proof. exact match_top_scoped. Qed.
+Print Assumptions C08_match_is_spec_refs.
+
+Theorem C08_branch_choice_is_spec_refs : forall we re f w rbs, env_scoped we = true -> env_scoped re = true ->
+  (2 * amdepth w + 2 <= f)%nat -> scoped we w = true -> is_union (deref1 we w) = false -> scoped re (SUnion rbs) = true ->
+  reader_branch (fun l => match_types f we re l w) rbs = ROk (pick_branch we re w rbs).
+Proof.
+  intros we re f w rbs Hew Her Hf Hw Hu Hr.
+  rewrite reader_branch_nth, (reader_branch_idx_scoped we re f w rbs Hew Her Hf Hw Hu Hr), pick_branch_idx. reflexivity.
+Qed.
+Print Assumptions C08_branch_choice_is_spec_refs.
 
 (** the value-level statement alone *)
 Theorem C08_rval_is_resolve_partial : forall n we w a, typedn n we w a -> forall re r f, (n <= f)%nat ->
@@ -271,3 +307,10 @@ Example C08_witnesses_in_zone :
   agree [] [] SInt SFloat = true /\
   agree g5_e g5_e g5_u g5_u = true.
 Proof. exact witnesses_in_zone. Qed.
+
+(** the two witnesses with by-name references (F7, reference against a union with the inline definition) are inside
+    the zone with references *)
+Example C08_ref_witnesses_in_zone :
+  (env_scoped f7_we && env_scoped f7_re && scoped f7_we f7_w && scoped f7_re f7_r && agreen 6 f7_we f7_re f7_w f7_r = true) /\
+  (env_scoped g1_we && env_scoped g1_re && scoped g1_we g1_w && scoped g1_re g1_r && agreen 6 g1_we g1_re g1_w g1_r = true).
+Proof. exact ref_witnesses_in_zone. Qed.
